@@ -28,7 +28,7 @@ impl EditState {
             crate::FontMode::Single => {
                 let new_font = BitFont::from_ansi_font_page(page)?;
                 if let Some(font) = self.get_buffer().get_font(0) {
-                    let op = super::undo_operations::SetFont::new(0, font.clone(), new_font);
+                    let op = super::undo_operations::SetFont::new(0, Some(font.clone()), new_font);
                     self.push_undo_action(Box::new(op))
                 } else {
                     Err(anyhow::anyhow!("No font found in buffer."))
@@ -36,8 +36,11 @@ impl EditState {
             }
             crate::FontMode::Unlimited | crate::FontMode::FixedSize => {
                 let new_font = BitFont::from_ansi_font_page(page)?;
-                if let Some(font) = self.get_buffer().get_font(0) {
-                    let op = super::undo_operations::SetFont::new(self.caret.get_font_page(), font.clone(), new_font);
+                if self.get_buffer().get_font(0).is_some() {
+                    // the font being replaced is the one in the caret's slot (none, if that slot is still empty)
+                    let page = self.caret.get_font_page();
+                    let old_font = self.get_buffer().get_font(page).cloned();
+                    let op = super::undo_operations::SetFont::new(page, old_font, new_font);
                     self.push_undo_action(Box::new(op))
                 } else {
                     Err(anyhow::anyhow!("No font found in buffer."))
@@ -51,7 +54,7 @@ impl EditState {
             crate::FontMode::Sauce | crate::FontMode::Single => {
                 let new_font = BitFont::from_sauce_name(name)?;
                 if let Some(font) = self.get_buffer().get_font(0) {
-                    let op = super::undo_operations::SetFont::new(0, font.clone(), new_font);
+                    let op = super::undo_operations::SetFont::new(0, Some(font.clone()), new_font);
                     self.push_undo_action(Box::new(op))
                 } else {
                     Err(anyhow::anyhow!("No font found in buffer."))
@@ -59,8 +62,11 @@ impl EditState {
             }
             crate::FontMode::Unlimited | crate::FontMode::FixedSize => {
                 let new_font = BitFont::from_sauce_name(name)?;
-                if let Some(font) = self.get_buffer().get_font(0) {
-                    let op = super::undo_operations::SetFont::new(self.caret.get_font_page(), font.clone(), new_font);
+                if self.get_buffer().get_font(0).is_some() {
+                    // the font being replaced is the one in the caret's slot (none, if that slot is still empty)
+                    let page = self.caret.get_font_page();
+                    let old_font = self.get_buffer().get_font(page).cloned();
+                    let op = super::undo_operations::SetFont::new(page, old_font, new_font);
                     self.push_undo_action(Box::new(op))
                 } else {
                     Err(anyhow::anyhow!("No font found in buffer."))
@@ -92,15 +98,18 @@ impl EditState {
             crate::FontMode::Sauce => Err(anyhow::anyhow!("Not supported for sauce buffers.")),
             crate::FontMode::Single => {
                 if let Some(font) = self.get_buffer().get_font(0) {
-                    let op = super::undo_operations::SetFont::new(0, font.clone(), new_font);
+                    let op = super::undo_operations::SetFont::new(0, Some(font.clone()), new_font);
                     self.push_undo_action(Box::new(op))
                 } else {
                     Err(anyhow::anyhow!("No font found in buffer."))
                 }
             }
             crate::FontMode::Unlimited | crate::FontMode::FixedSize => {
-                if let Some(font) = self.get_buffer().get_font(0) {
-                    let op = super::undo_operations::SetFont::new(self.caret.get_font_page(), font.clone(), new_font);
+                if self.get_buffer().get_font(0).is_some() {
+                    // the font being replaced is the one in the caret's slot (none, if that slot is still empty)
+                    let page = self.caret.get_font_page();
+                    let old_font = self.get_buffer().get_font(page).cloned();
+                    let op = super::undo_operations::SetFont::new(page, old_font, new_font);
                     self.push_undo_action(Box::new(op))
                 } else {
                     Err(anyhow::anyhow!("No font found in buffer."))
